@@ -29,7 +29,7 @@ TAGSCORERS = [("vaporetto::char_scorer::boundary_tag_scorer::CharScorerBoundaryT
 def run(chk):
     w = C.world_for(chk)
     from . import ctors as _ctors
-    _ctors.run(chk, w)
+    _ctors.run(chk, w, only=["TagPredictor::new", "PositionalWeight::new"])
     for rid, txt in (("R06.1", "argmax: strict comparison, first index wins ties, slice-relative index"), ("R06.2", "score-slot consumption agrees in predictor, accessor and trainer"),
                      ("R06.3", "automaton state vectors prepared before use; predict_tags call shape"), ("R06.4", "model-derived index sanitised"),
                      ("R06.5", "char/type tag scorer twins"), ("R06.6", "tag score storage prepared on every path")):
